@@ -23,8 +23,7 @@ def op_hll_buckets(job):
     out = {}
     for v in job['values']:
         h = small_hll(job['p'], 0)
-        h.M = np.zeros(h.m)
-        h._hasher_update(v)
+        h.add(v)                      # warm-up capacity 0: the first add converts and updates one register (public surface only)
         nzs = np.nonzero(h.M)[0].tolist()
         out[v] = nzs[0] if len(nzs) == 1 else None
     return out
@@ -223,6 +222,64 @@ def op_transform_columns(job):
 
 
 OPS = {k[3:]: v for k, v in list(globals().items()) if k.startswith('op_')}
+
+
+def op_transform_whole_column(job):
+    """Long columns with repeated values of unequal multiplicity and block-wise different ranges: every emitted column
+    must hold the vault's formula evaluated on the WHOLE column, and the emission rule is judged on that text.
+    job: rows, seed, presets (comma list).  Returns the list of mismatches."""
+    import logging
+    import random
+    import warnings
+    import pandas as pd
+    import outrank.feature_transformations.feature_transformer_vault as vault
+    from outrank.feature_transformations.ranking_transformers import FeatureTransformerGeneric
+    logging.disable(logging.CRITICAL)
+    rng = random.Random(job['seed'])
+    n = job['rows']
+    pool = [0, 1, 2, 3, 5, 8, 13, 48, 100]
+    weights = [30, 20, 10, 7, 5, 3, 2, 2, 1]
+    vals = []
+    for i in range(n):
+        v = rng.choices(pool, weights)[0]
+        if i >= 2 ** 14 and rng.random() < 0.2:
+            v = rng.choice([250, 400, 999])            # later blocks reach larger values than the first 2**14 rows
+        if rng.random() < 0.05:
+            v = -v
+        vals.append('' if rng.random() < 0.03 else (f'"{v}"' if rng.random() < 0.02 else str(v)))
+    df = pd.DataFrame({'x': vals, 'other': ['k'] * n})
+    bad = []
+    with warnings.catch_warnings():
+        warnings.simplefilter('ignore')
+        np.seterr(all='ignore')
+        res = FeatureTransformerGeneric({'x'}, preset=job['presets']).construct_new_features(df)
+        X = np.array([0.0 if len(t) == 0 else float(t) for t in (str(v).replace('"', '') for v in vals)])
+        union = {}
+        for pr in job['presets'].split(','):
+            union.update(vault._tr_global_namespace[pr])
+        emitted = [c for c in res.columns if c not in ('x', 'other')]
+        checked = 0
+        for k, expr in union.items():
+            ref = eval(expr, {'np': np, 'X': X})          # the named formula on the whole column
+            ref = np.asarray(ref).astype(str)
+            if ref.shape != (n,):
+                continue
+            u, c = np.unique(ref, return_counts=True)
+            keep = len(u) > 1 and np.max(c) / np.sum(c) < 0.8 and np.count_nonzero(ref == 'nan') / n < 0.75
+            share = np.max(c) / np.sum(c)
+            if abs(share - 0.8) < 1e-9:
+                continue
+            name = 'x' + k
+            checked += 1
+            if keep != (name in emitted):
+                bad.append({'column': name, 'why': f'{"emitted" if name in emitted else "dropped"}; the formula on the whole column has {len(u)} distinct values, majority share {share:.3f} -> {"emit" if keep else "drop"}'})
+            elif keep:
+                got = np.asarray(res[name]).astype(str)
+                diff = np.nonzero(got != ref)[0]
+                if len(diff):
+                    i = int(diff[0])
+                    bad.append({'column': name, 'why': f'{len(diff)} rows differ from the named formula on the whole column, e.g. row {i}: x={vals[i]!r} got {got[i]} expected {ref[i]}'})
+    return {'bad': bad[:20], 'nbad': len(bad), 'checked': checked, 'emitted': len(emitted)}
 
 
 def op_rank3mr(job):
